@@ -419,6 +419,8 @@ def do_parse(p, case, tmpdir=None):
             cfg = p.parse_object(copy.deepcopy(case.get("config", {})))
         elif entry == "env":
             cfg = p.parse_env(dict(case.get("env", {})))
+        elif entry == "none":       # registration only (exhaustive link sets)
+            return ("err", "not-parsed", "")
         else:
             raise MachineryError("unknown entry " + entry)
     except ArgumentError as ex:
@@ -639,6 +641,12 @@ def oracle(case, deep=True):
                         if not (got == rc[1] and type(got) is type(rc[1])):
                             fail("cfg[%s] = %r but compute_fn(%s) = %r" % (l["target"], got, ", ".join(l["sources"]), rc[1]), attr)
                             break
+            # --- the configuration returned has been validated WITH the link targets in place
+            try:
+                p.validate(cfg)
+            except Exception as ex:  # noqa: BLE001
+                fail("parse returned a configuration that does not validate (%s: %s)" % (exc_class(ex), str(ex)[:160]),
+                     set_attribution(links))
             # --- dumps
             set_attr = set_attribution(links)
             text = None
@@ -692,7 +700,7 @@ def oracle(case, deep=True):
         # --- the option of a plain target is rejected
         pre = [spec["sub"]["name"]] if spec.get("sub") else []
         for l in links:
-            if target_kind(l) != "plain":
+            if target_kind(l) != "plain" or case["entry"] == "none":
                 continue
             ttype = next((a["type"] for a in lspec.get("args", []) if a["name"] == l["target"]), "int")
             val = {"int": "3", "str": "v", "any": "3", "dict": "{}"}[ttype]
@@ -840,6 +848,8 @@ def gen_link(rng, spec):
                 opts.append(("two", "pair"))
             if rng.random() < 0.08:
                 opts.append(("one", "raise"))
+            if rng.random() < 0.08:
+                opts.append(("many", "tuple"))     # ill-typed result: must be caught by the validation after the links
         if gsrc:
             opts += [("group", "gsum"), ("group", "gsum_d"), ("group", "kind"), ("group", "kind_d")]
         if "s" in types and ok_source("s", t):
@@ -934,8 +944,11 @@ def gen_case(rng, spec):
     env = {}
     feed_env, feed_cfg, feed_cfgopt = [], [], []
     targets = {l["target"] for l in lspec.get("links", [])}
+    required = {a["name"] for a in lspec.get("args", []) if a.get("required")}
     for k, ty in types.items():
         p_set = 0.5 if k not in targets else 0.35
+        if k in required and k not in targets:
+            p_set = 0.9
         if rng.random() > p_set:
             continue
         v = gen_value(rng, ty)
@@ -1297,6 +1310,24 @@ def shrink_case(case, still_bad, budget=40):
     return cur
 
 
+def exhaustive_link_sets(max_len, wide):
+    """every sequence of <= max_len link_arguments calls over a parser with three int arguments (registration only)"""
+    import itertools
+
+    keys = ["a", "b", "c"]
+    srcs = [[k] for k in keys] + ([["a", "b"], ["b", "c"], ["c", "a"]] if wide else [["a", "b"]])
+    reqs = []
+    for t in keys:
+        for ss in srcs:
+            for fn in (None, "sum"):
+                reqs.append({"sources": ss, "target": t, "fn": fn})
+    spec0 = {"default_env": False, "args": [{"name": k, "type": "int", "default": i} for i, k in enumerate(keys)], "groups": [],
+             "subclass": [], "subclass_list": []}
+    for n in range(1, max_len + 1):
+        for combo in itertools.product(reqs, repeat=n):
+            yield {"spec": dict(spec0, links=[dict(r) for r in combo]), "entry": "none"}
+
+
 # ---------------------------------------------------------------- the check
 def unexplained(ctx, fails):
     return [f for f in fails if not (f["finding"] and ctx.is_open(f["finding"]))]
@@ -1386,13 +1417,18 @@ def run(ctx: Ctx):
     n_random = ctx.budget(650, 9000) * (2 if ctx.search_boost > 1 else 1)
     for _ in range(n_random):
         cases.append(gen_case(ctx.rng, gen_spec(ctx.rng)))
+    n_generated = len(cases)
+    exh = list(exhaustive_link_sets(3, False) if ctx.thorough else exhaustive_link_sets(2, True))
+    cases.extend(exh)
+    ctx.extra["exhaustive_link_sets"] = {"arguments": 3, "max_calls": 3 if ctx.thorough else 2, "count": len(exh)}
 
     # --- correspondence (in batches, so that a driver failure costs one batch)
     reals = []
     for case in cases:
         r = run_real(case)
         reals.append(r)
-        describe(ctx, case, r)
+        if case["entry"] != "none":
+            describe(ctx, case, r)
         if r["res"][0] == "ok" and any(x["ok"] for x in r["links"]):
             ctx.nontrivial(json.dumps(case, sort_keys=True))
     bad = []
@@ -1433,7 +1469,7 @@ def run(ctx: Ctx):
             extra_cases.append(gen_case(ctx.rng, gen_spec(ctx.rng)))
     for idx, case in enumerate(cases + extra_cases):
         ctx.count()
-        judge(ctx, case, "corpus" if idx < n_corpus else "generated")
+        judge(ctx, case, "corpus" if idx < n_corpus else "generated" if idx < n_generated or idx >= len(cases) else "exhaustive")
     for c in cases[n_corpus:n_corpus + 3]:
         ctx.sample({k: v for k, v in c.items() if k != "feed"})
 
